@@ -361,6 +361,35 @@ func coincidenceArithCase(t *mon.T, which string) {
 	t.Count("coincidence-lengths")
 }
 
+// hugePrecisionCase: Precision from 2^31 to MaxUint32 ("unlimited"): no
+// operation other than Quo and the transcendental functions gets slower with
+// it, the results are simply exact - but conversions of Precision to int32
+// wrap there. The exponent limits still apply.
+func hugePrecisionCase(t *mon.T, which string) {
+	r := t.Rng
+	gc := gen.Context(r)
+	if gc.P > 40 {
+		gc.P = 40
+	}
+	c := gc
+	c.P = []int64{1 << 31, 1<<31 + 7, 3000000000, 4294967295, 1<<31 - 1, 4294967294}[r.Intn(6)]
+	switch r.Intn(3) {
+	case 0:
+		op := []string{"add", "sub", "mul"}[r.Intn(3)]
+		x, y := gen.Pair(r, gc, op)
+		arithCase(t, which, op, c, x, y)
+	case 1:
+		arithCase(t, which, unaryOps[r.Intn(3)], c, gen.Finite(r, gc), dec.D{})
+	default:
+		// on the overflow edge of the caller's range
+		cf := gen.Coeff(r, gc.P)
+		x := gen.WithAdj(r.Bool(), cf, gc.Emax-int64(r.Intn(2)))
+		y := gen.WithAdj(x.Neg, gen.Coeff(r, gc.P), gc.Emax-int64(r.Intn(2)))
+		arithCase(t, which, []string{"add", "mul", "round"}[r.Intn(3)], c, x, y)
+	}
+	t.Count("huge-precision")
+}
+
 func runC01(r *mon.Run) {
 	r.Rule = "cases: (op, context, operands) drawn by seeded boundary-biased generators (ties, near-ties, all-nines carries, " +
 		"subnormal band, Etiny, Emax edge, cancellation, operands longer than Precision), context-aware parsing of generated " +
@@ -390,6 +419,8 @@ func runC01(r *mon.Run) {
 	r.Parallel("p0", r.N(60000, 3000000), p0Case)
 	r.Parallel("coincidence-lengths", int64(len(coincidenceExps))*r.N(3, 40), func(t *mon.T) { coincidenceArithCase(t, "value") })
 	r.Require("coincidence-lengths", 300)
+	r.Parallel("huge-precision", r.N(6000, 400000), func(t *mon.T) { hugePrecisionCase(t, "value") })
+	r.Require("huge-precision", 5000)
 	if !r.Quick() {
 		gridRun(r, "value")
 	}
